@@ -257,8 +257,8 @@ def check_entries(ctx, w):
     t_generic = expr.CP(expr.spec_cond('word0 & 0x80000000 == 0'), True)
     t_res = expr.CP(expr.spec_cond('word0 & 0x70000000 != 0'), True)
     p0 = expr.CP(expr.spec_cond('per_index == 0'), True)
-    p12 = expr.CP(expr.spec_cond('per_index == 1 or per_index == 2'), True)
-    not_p12 = expr.outcome('per_index == 1 or per_index == 2', False)
+    p12 = expr.CP(expr.spec_cond('per_index in (1, 2)'), True)       # x == 1 or x == 2 is normalised to x in (1, 2) (sa/canon.py N22)
+    not_p12 = (expr.neg(p12),)
     spec += [
         (base + (t_table, t_generic), 'GenericEHABIEntry'),
         (base + (t_table, expr.neg(t_generic), t_res), 'CorruptEHABIEntry'),
